@@ -78,6 +78,21 @@ def _mark_first(tree):
     return True
 
 
+PLF = 'beartype/_util/cache/pool/utilcachepoollistfixed.py'
+
+
+def _lockfree_pool(tree):
+    fn = find_def(tree, 'acquire_fixed_list')
+    if fn is None:
+        return False
+    for i, s in enumerate(fn.body):
+        if isinstance(s, ast.Assign) and '_fixed_list_pool.acquire' in ast.unparse(s.value):
+            fn.body[i:i + 1] = stmts('fixed_lists = _fixed_list_pool_plain[size]\nfixed_list = fixed_lists.pop() if fixed_lists else FixedList(size)')
+            tree.body.insert(len(tree.body) - 1, stmts('_fixed_list_pool_plain = {}')[0])
+            return True
+    return False
+
+
 VARIANTS = {
     # ---- R1 / R2 --------------------------------------------------------------------------------
     'unbounded-cache-lookup-outside-lock': tseeded(UNB, lambda t: _hoist_lookup(t), 'C15.R2',
@@ -102,6 +117,7 @@ VARIANTS = {
         t, lambda n: isinstance(n, ast.Assign) and ast.unparse(n.targets[0]) == 'self._repr',
         lambda n: stmts("self._repr = ''\nself._repr += 'BeartypeConf('"), scope='BeartypeConf.__repr__'), 'C15.R6', 'seeded C15-23'),
     'class-marked-before-its-members-are-decorated': tseeded(DTYPE, lambda t: _mark_first(t), 'C15.R7', 'seeded C15-22'),
+    'fixed-list-pool-without-its-lock': tseeded(PLF, _lockfree_pool, 'C15.R1', 'seeded C15-21'),
     # ---- neutral ----------------------------------------------------------------------------------------
     'n-roundtrip-unbounded': roundtrip(UNB),
     'n-roundtrip-pool': roundtrip(POOL),
